@@ -118,25 +118,28 @@ structure Mono (L : Limits) (s s' : St σ) : Prop where
   anomaly_mono : s.anomaly = true → s'.anomaly = true
   polls_mono : s.polls ≤ s'.polls
   nmp_mono : s.nmpOut = true → s'.nmpOut = true
+  tt_mono : s.ttOut = true → s'.ttOut = true
   /-- the invariant of the persistent state is kept -/
   ps_ok : PsInv.ok s.ps → PsInv.ok s'.ps
 
 theorem Mono.refl (L : Limits) (s : St σ) : Mono L s s :=
-  ⟨rfl, Int.le_refl _, fun _ h => h, id, id, id, Nat.le_refl _, id, id⟩
+  ⟨rfl, Int.le_refl _, fun _ h => h, id, id, id, Nat.le_refl _, id, id, id⟩
 
 theorem Mono.trans {L : Limits} {s1 s2 s3 : St σ} (h1 : Mono L s1 s2) (h2 : Mono L s2 s3) : Mono L s1 s3 :=
   ⟨h2.pondering.trans h1.pondering, Int.le_trans h1.nodes_mono h2.nodes_mono,
    fun h0 h => h2.nodes_bound h0 (h1.nodes_bound h0 h), fun h => h2.aborted_mono (h1.aborted_mono h),
    fun h => h2.fuel_mono (h1.fuel_mono h), fun h => h2.anomaly_mono (h1.anomaly_mono h),
-   Nat.le_trans h1.polls_mono h2.polls_mono, fun h => h2.nmp_mono (h1.nmp_mono h), fun h => h2.ps_ok (h1.ps_ok h)⟩
+   Nat.le_trans h1.polls_mono h2.polls_mono, fun h => h2.nmp_mono (h1.nmp_mono h),
+   fun h => h2.tt_mono (h1.tt_mono h), fun h => h2.ps_ok (h1.ps_ok h)⟩
 
 /-- `Mono` only looks at these fields. -/
 theorem Mono.of_eq {L : Limits} {s s' : St σ} (h1 : s'.pondering = s.pondering) (h2 : s'.nodes = s.nodes)
     (h3 : s'.aborted = s.aborted) (h4 : s'.fuelOut = s.fuelOut) (h5 : s'.anomaly = s.anomaly) (h6 : s'.polls = s.polls)
-    (h7 : s'.ps = s.ps) (h8 : s'.nmpOut = s.nmpOut := by rfl) : Mono L s s' :=
+    (h7 : s'.ps = s.ps) (h8 : s'.nmpOut = s.nmpOut := by rfl)
+    (h9 : s'.ttOut = s.ttOut := by rfl) : Mono L s s' :=
   ⟨h1, by rw [h2]; exact Int.le_refl _, fun _ h => by rw [h2]; exact h, fun h => by rw [h3]; exact h,
    fun h => by rw [h4]; exact h, fun h => by rw [h5]; exact h, by rw [h6]; exact Nat.le_refl _,
-   fun h => by rw [h8]; exact h, fun h => by rw [h7]; exact h⟩
+   fun h => by rw [h8]; exact h, fun h => by rw [h9]; exact h, fun h => by rw [h7]; exact h⟩
 
 /-- a search function returned to its caller with board, history stack and move store as it found them. -/
 structure Frame (L : Limits) (s s' : St σ) : Prop where
@@ -173,8 +176,8 @@ theorem abort_frame (L : Limits) (s : St σ) : Frame L s (abort L s).2 := by
   · split
     · exact Frame.refl L s
     · split
-      · exact ⟨⟨rfl, Int.le_refl _, fun _ h => h, fun _ => rfl, id, id, Nat.le_succ _, id, id⟩, rfl, rfl, rfl⟩
-      · exact ⟨⟨rfl, Int.le_refl _, fun _ h => h, id, id, id, Nat.le_succ _, id, id⟩, rfl, rfl, rfl⟩
+      · exact ⟨⟨rfl, Int.le_refl _, fun _ h => h, fun _ => rfl, id, id, Nat.le_succ _, id, id, id⟩, rfl, rfl, rfl⟩
+      · exact ⟨⟨rfl, Int.le_refl _, fun _ h => h, id, id, id, Nat.le_succ _, id, id, id⟩, rfl, rfl, rfl⟩
 
 omit [PsInv σ] in
 theorem abort_pv (L : Limits) (s : St σ) : (abort L s).2.pv = s.pv ∧ (abort L s).2.ps = s.ps := by
@@ -202,13 +205,13 @@ theorem incrementNodes_frame (L : Limits) (s : St σ) : Frame L s (incrementNode
   unfold incrementNodes
   split
   · next h =>
-    refine ⟨⟨rfl, by simp; omega, ?_, id, id, id, Nat.le_refl _, id, id⟩, rfl, rfl, rfl⟩
+    refine ⟨⟨rfl, by simp; omega, ?_, id, id, id, Nat.le_refl _, id, id, id⟩, rfl, rfl, rfl⟩
     intro h0 hs
     rcases h with h | h
     · omega
     · simp; omega
   · split
-    · exact ⟨⟨rfl, Int.le_refl _, fun _ h => h, fun _ => rfl, id, id, Nat.le_refl _, id, id⟩, rfl, rfl, rfl⟩
+    · exact ⟨⟨rfl, Int.le_refl _, fun _ h => h, fun _ => rfl, id, id, Nat.le_refl _, id, id, id⟩, rfl, rfl, rfl⟩
     · exact Frame.refl L s
 
 omit [PsInv σ] in
